@@ -1,5 +1,159 @@
-(* Properties/C12.v — placeholder while the proofs are being written *)
+(* Properties/C12.v — C12 "slot Raft replicas apply identical command sequences".
+
+   The object is the multiraft DRIVER (Model/RaftDriver.v transcribes
+   pkg/slot/multiraft ready.go / slot.go / apply_pipeline.go / compaction.go /
+   future.go).  go.etcd.io/raft is not modelled: the content of every Ready is an
+   input of the model, and what the library guarantees about it is the explicit
+   hypothesis [sched_ok] / [csched_ok] (per Ready: [ready_ok]):
+
+     SMS   every replica learns the committed entries of ONE committed log [clog],
+           in index order, without gaps above its own cursor;
+           a snapshot comes alone, beyond the cursor, and carries what the state
+           machine of the replica that took it held ([snap_good]; replicas only
+           store such snapshots: c12_stored_snapshot_good);
+     Ready contract: committed entries are never rewritten, the commit index
+           never decreases, committed entries belong to the log the Ready leaves
+           in stable storage, and its messages may be sent once its entries and
+           hard state are stable ([msg_ok], [applied_ok] after the Save).
+
+   A schedule is ANY list of steps: Ready (asynchronous, synchronous, pipeline
+   busy), apply task, proposal, compaction, Close / kill, restart; a crash may cut
+   any step after any number of micro-operations ([exec_cut]).  State machine with
+   a durable applied index (the production configuration, pkg/slot/fsm). *)
 From WK Require Import Base.Base Model.RaftDriver.
-Example c12_placeholder : applyCommittedEntries [] = [].
-Proof. reflexivity. Qed.
-Print Assumptions c12_placeholder.
+From WK Require Import Proof.RaftDriver_lists Proof.RaftDriver_exec Proof.RaftDriver_inv Proof.RaftDriver_steps
+  Proof.RaftDriver_trace Proof.RaftDriver_futures Proof.RaftDriver_monitor Proof.RaftDriver_props.
+From Coq Require Import Sorted.
+Open Scope N_scope.
+
+(* In every reachable state -- whatever the schedule, wherever crashes cut it -- the state machine holds
+   exactly the commands of the committed log up to its own index, each once, in index order; and the
+   sequence of ApplyBatch/Apply/Restore calls passes the monitor's order check against ANY set of
+   applied commands of the committed log (strictly increasing, nothing at or below the state machine's
+   position, nothing skipped). *)
+Theorem c12_apply_in_order_once :
+  forall (clog : N -> entry), (forall i, e_idx (clog i) = i) ->
+  forall (GS : entry -> Prop) (sched : list step),
+  sched_ok clog GS NoTrack sched start_node ->
+  let s := run true sched in
+  StronglySorted (fun a b => e_idx a < e_idx b) (sm_hist s)
+  /\ (forall e, In e (sm_hist s) -> e = clog (e_idx e) /\ is_normal e = true /\ 0 < e_idx e <= sm_idx s)
+  /\ (forall i, 0 < i <= sm_idx s -> is_normal (clog i) = true -> In (clog i) (sm_hist s))
+  /\ (forall G, Gsound clog G -> check_order G 0 (n_tr s) = true).
+Proof. exact apply_in_order_once_lemma. Qed.
+Print Assumptions c12_apply_in_order_once.
+
+(* A restart resumes at newSlot's applied index (the stored snapshot's index if there is one -- the
+   snapshot is restored first --, otherwise the larger of Storage's applied index and the state
+   machine's own), with an idle pipeline, and the state machine holds exactly the commands up to there:
+   nothing is re-applied on top of its effect, nothing is skipped. *)
+Theorem c12_restart_resumes :
+  forall (clog : N -> entry), (forall i, e_idx (clog i) = i) ->
+  forall (GS : entry -> Prop) (sched : list step),
+  sched_ok clog GS NoTrack sched start_node ->
+  let s := run true sched in
+  v_up s = false ->
+  let s' := newSlot false s in
+  v_applying s' = newSlot_applied true (d_snap s) (d_applied s) (sm_idx s)
+  /\ v_applied s' = v_applying s'
+  /\ (forall i, 0 < i <= v_applying s' -> is_normal (clog i) = true -> In (clog i) (sm_hist s'))
+  /\ (forall e, In e (sm_hist s') -> e_idx e <= v_applying s').
+Proof. exact restart_resumes_lemma. Qed.
+Print Assumptions c12_restart_resumes.
+
+(* Two replicas (two runs over the same committed log) never hand different entries to their state
+   machines at the same index, in whatever incarnation. *)
+Theorem c12_same_command_per_index :
+  forall (clog : N -> entry), (forall i, e_idx (clog i) = i) ->
+  forall (GS1 GS2 : entry -> Prop) (sched1 sched2 : list step),
+  sched_ok clog GS1 NoTrack sched1 start_node ->
+  sched_ok clog GS2 NoTrack sched2 start_node ->
+  forall e1 e2,
+  In e1 (applied_tr (n_tr (run true sched1))) ->
+  In e2 (applied_tr (n_tr (run true sched2))) ->
+  e_idx e1 = e_idx e2 -> e1 = e2.
+Proof. exact same_command_lemma. Qed.
+Print Assumptions c12_same_command_per_index.
+
+(* Nothing is sent and nothing is applied before the Ready that carries it is in stable storage: the
+   event list passes check_persist (every message against the hard state / log / snapshot saved so far,
+   every applied entry against the saved log and commit index). *)
+Theorem c12_persist_before_send :
+  forall (clog : N -> entry), (forall i, e_idx (clog i) = i) ->
+  forall (GS : entry -> Prop) (sched : list step),
+  sched_ok clog GS NoTrack sched start_node ->
+  check_persist dur0 (n_tr (run true sched)) = true.
+Proof. exact persist_before_send_lemma. Qed.
+Print Assumptions c12_persist_before_send.
+
+(* FULL statement of the future clause: "a future resolved successfully for (i, t) on a node belongs to
+   the entry applied at i: clog i = (i, t, command of the future)", for every schedule in which the
+   library honours SMS, the Ready contract and Log Matching.  It is FALSE: see c12_future_index_refuted.
+   What holds is the statement under LocalAppend (TrackFut = Log Matching + "every entry that takes a
+   waiting future carries that future's command"): *)
+Theorem c12_future_index_partial :
+  forall (clog : N -> entry), (forall i, e_idx (clog i) = i) ->
+  forall (GS : entry -> Prop) (sched : list step),
+  sched_ok clog GS (TrackFut clog) sched start_node ->
+  forall f i t d, In (f, FutOk i t d) (n_futs (run true sched)) ->
+  clog i = Entry i t KNormal f /\ d = Some f /\ In (clog i) (applied_tr (n_tr (run true sched))).
+Proof. exact future_index_partial_lemma. Qed.
+Print Assumptions c12_future_index_partial.
+
+(* Without LocalAppend (only SMS, the Ready contract and Log Matching are kept): a proposal accepted
+   while the cached status said "leader" and forwarded by etcd/raft after the step-down is bound by
+   slot.trackReadyEntries to the next entry with a payload -- another node's proposal -- and its future
+   reports that entry's index and result.  Witness: schedW over clogW (node 1 of the standalone
+   reproduction; replayed on the real code by corpus/C12/k1_*.json). *)
+Theorem c12_future_index_refuted :
+  exists (clog : N -> entry) (sched : list step),
+    (forall i, e_idx (clog i) = i)
+    /\ sched_ok clog (fun _ => False) (LMonly clog) sched start_node
+    /\ exists f i t d, In (f, FutOk i t d) (n_futs (run true sched)) /\ e_cmd (clog i) <> f.
+Proof. exact future_index_refuted_lemma. Qed.
+Print Assumptions c12_future_index_refuted.
+
+(* The monitor of ./check is the predicate the theorems are about: on the case produced by ANY cluster
+   of driver models (k replicas, each stepping on its own, snapshots exchanged between them) under the
+   hypotheses, C12_monitor returns 0. *)
+Theorem c12_model_satisfies_monitor :
+  forall (clog : N -> entry), (forall i, e_idx (clog i) = i) ->
+  forall (k : nat) (sched : list (nat * step)),
+  csched_ok clog sched (cluster_init true k) ->
+  C12_monitor (case_of (crun true k sched)) = 0.
+Proof. exact model_satisfies_monitor_lemma. Qed.
+Print Assumptions c12_model_satisfies_monitor.
+
+(* The hypothesis on received snapshots is what replicas store: every snapshot a reachable replica
+   holds is good, and everything in it has been applied by some replica of the cluster. *)
+Theorem c12_stored_snapshot_good :
+  forall (clog : N -> entry), (forall i, e_idx (clog i) = i) ->
+  forall (k : nat) (sched : list (nat * step)),
+  csched_ok clog sched (cluster_init true k) ->
+  forall n, In n (crun true k sched) -> d_snap n <> 0 ->
+  snap_good clog (d_snap n) (d_snapc n) /\ (forall e, In e (d_snapc n) -> In e (Gall (crun true k sched))).
+Proof. exact stored_snapshot_good_lemma. Qed.
+Print Assumptions c12_stored_snapshot_good.
+
+(* ---- the hypotheses are satisfiable ----------------------------------------------------------------------- *)
+
+(* a schedule with local proposals, one batch, a compaction, a synchronous Ready killed after its Save,
+   a restart from the snapshot and the re-delivery: it satisfies sched_ok with the future hypotheses ... *)
+Example c12_hypotheses_satisfiable : sched_ok clogV (fun _ => False) (TrackFut clogV) schedV start_node.
+Proof. exact schedV_ok. Qed.
+
+(* ... and this is what it produces *)
+Example c12_hypotheses_satisfiable_result :
+  sm_hist (run true schedV) = [clogV 5; clogV 6; clogV 8]
+  /\ sm_idx (run true schedV) = 8
+  /\ In (700, FutOk 5 2 (Some 700)) (n_futs (run true schedV))
+  /\ In (701, FutOk 6 2 (Some 701)) (n_futs (run true schedV))
+  /\ d_snap (run true schedV) = 6
+  /\ applied_tr (n_tr (run true schedV)) = [clogV 5; clogV 6; clogV 8].
+Proof. exact schedV_result. Qed.
+
+(* the state machine WITHOUT a durable applied index (not the production configuration): a kill
+   between ApplyBatch and Storage.MarkApplied makes the restart apply the batch a second time *)
+Example c12_plain_state_machine_reapplies :
+  applied_tr (n_tr (run false schedPlain)) = [clogV 5; clogV 6; clogV 5; clogV 6].
+Proof. exact plain_reapplies. Qed.
